@@ -209,8 +209,8 @@ def check(ck):
                     continue
             if fi is fd:
                 # _dispatch(method, params, config): `config or self.json_config`, callers pass the adapter
-                okk = all(a == ("or", (("param", "config"), ("attr", ("param", "self"), "json_config"))) or a == ("param", "config")
-                          for a in prov.alts(t))
+                va = prov.value_alts(t)
+                okk = ("param", "config") in va and va <= set([("param", "config"), ("attr", ("param", "self"), "json_config")])
                 ck.require(okk, "C13.4", label, "uses the request-specific config handed by the caller",
                            "a reply of _dispatch is built with %s instead of the request-specific configuration" % prov.show(t),
                            q.loc(fi, n))
